@@ -10,7 +10,14 @@ C=${VERIF_SNAP:-$V}   # (a frozen copy of /verif to run from, while /verif itsel
 W=$(mktemp -d /var/tmp/verif-mutant-XXXXXX)
 trap 'git -C /repo worktree remove --force "$W/tree" >/dev/null 2>&1; rm -rf "$W"' EXIT
 git -C /repo worktree add -q --detach "$W/tree" HEAD || exit 2
-git -C "$W/tree" apply "$PATCH" || { echo "patch does not apply"; exit 2; }
+if ! git -C "$W/tree" apply "$PATCH" 2>/dev/null; then
+	# (written against an earlier commit; later repairs touched neighbouring lines)
+	if git -C "$W/tree" apply --3way "$PATCH" >/dev/null 2>&1 && ! git -C "$W/tree" diff --name-only --diff-filter=U | grep -q .; then
+		git -C "$W/tree" reset -q
+	else
+		echo "patch does not apply"; exit 2
+	fi
+fi
 mkdir -p "$W/ev" "$W/rp"
 for id in "$@"; do
 	out=$(VERIF_REPO="$W/tree" VERIF_EVIDENCE_DIR="$W/ev" VERIF_REPLAY_DIR="$W/rp" VERIF_BUDGET_S=${VERIF_BUDGET_S:-25} "$C/check" "$id" quick 2>&1)
